@@ -333,7 +333,7 @@ func (conn *Conn) read(ctx *Context, async bool) {
 	if call != nil && call.upgrade.Stream != openStream && call.upgrade.Stream != streaming {
 		delete(conn.pending, seq)
 	}
-	vhook("c.dispatch", conn, call, seq, vbool(len(ctx.Error) > 0))
+	vhook("c.dispatch", conn, call, seq, vbool(len(ctx.Error) > 0)+2*uint64(len(conn.pending)))
 	conn.mutex.Unlock()
 	switch {
 	case call == nil:
